@@ -104,9 +104,20 @@ fn hash_part<const P: u128>(case: &HashCase, cached_slot: usize, st: &mut Stats)
         o
     };
     let mut reps = 0u64;
-    let mut check = |name: String, h: u128, neg: bool| -> CaseResult {
+    // every diagram is held to the defining sum of the function it denotes (read by walking it); all of them
+    // denote `t` unless a builder operation is wrong, which is another property's concern
+    let mut foreign = 0u64;
+    let mut check = |name: String, h: u128, neg: bool, denotes: Tt| -> CaseResult {
         reps += 1;
-        let w = if neg { want_neg } else { want };
+        let base = if neg { denotes.not() } else { denotes };
+        let (wp, wn) = if base == t {
+            (want, want_neg)
+        } else {
+            foreign += 1;
+            let x = defining_sum::<P>(base, n, &map);
+            (x, (P + 1 - x) % P)
+        };
+        let w = if neg { wn } else { wp };
         ensure!(
             h == w,
             "C11/hash-differs-from-defining-sum",
@@ -114,7 +125,7 @@ fn hash_part<const P: u128>(case: &HashCase, cached_slot: usize, st: &mut Stats)
             P,
             name,
             h,
-            t,
+            denotes,
             w,
             neg
         );
@@ -122,9 +133,10 @@ fn hash_part<const P: u128>(case: &HashCase, cached_slot: usize, st: &mut Stats)
     };
     for (i, b) in bbs.iter().enumerate() {
         let f = bdd_from_tt(b, t, n);
-        check(format!("bdd under order {:?}", orders[i]), f.semantic_hash(&map).value(), false)?;
-        check(format!("negated bdd under order {:?}", orders[i]), f.neg().semantic_hash(&map).value(), true)?;
-        if i == cached_slot {
+        let ft = bdd_tt(f);
+        check(format!("bdd under order {:?}", orders[i]), f.semantic_hash(&map).value(), false, ft)?;
+        check(format!("negated bdd under order {:?}", orders[i]), f.neg().semantic_hash(&map).value(), true, ft.not())?;
+        if i == cached_slot && ft == t {
             // cached hash = recomputed, twice in a row, and again after further operations
             let c1 = f.cached_semantic_hash(b.order(), &map).value();
             let c2 = f.cached_semantic_hash(b.order(), &map).value();
@@ -157,9 +169,18 @@ fn hash_part<const P: u128>(case: &HashCase, cached_slot: usize, st: &mut Stats)
     }
     for (i, b) in sbs.iter().enumerate() {
         let f = sdd_from_tt(b, t, n);
-        check(format!("sdd under vtree {:?}", vts[i].shape()), f.semantic_hash(&map).value(), false)?;
-        check(format!("negated sdd under vtree {:?}", vts[i].shape()), f.neg().semantic_hash(&map).value(), true)?;
-        if i == cached_slot.min(1) {
+        let ft = sdd_tt(f);
+        check(format!("sdd under vtree {:?}", vts[i].shape()), f.semantic_hash(&map).value(), false, ft)?;
+        check(format!("negated sdd under vtree {:?}", vts[i].shape()), f.neg().semantic_hash(&map).value(), true, ft.not())?;
+        // another construction history for the same function (minterm by minterm, variables in the first BDD
+        // order): same hash, also where the builder does not compress
+        if t.support_size() <= 5 {
+            let g = sdd_from_tt_cubes(b, t, &orders[0]);
+            let gt = sdd_tt(g);
+            check(format!("sdd built minterm by minterm under vtree {:?}", vts[i].shape()), g.semantic_hash(&map).value(), false, gt)?;
+            st.flag("second_construction_route_gave_another_structure", !sdd_iso(f, g));
+        }
+        if i == cached_slot.min(1) && ft == t {
             let c1 = f.cached_semantic_hash(b.vtree_manager(), &map).value();
             let c2 = f.cached_semantic_hash(b.vtree_manager(), &map).value();
             let cn = f.neg().cached_semantic_hash(b.vtree_manager(), &map).value();
@@ -186,8 +207,18 @@ fn hash_part<const P: u128>(case: &HashCase, cached_slot: usize, st: &mut Stats)
     let exact = P > (1u128 << 60);
     if exact {
         let f = sdd_from_tt(&ssb, t, n);
-        if sdd_tt(f) == t {
-            check("sdd built by the semantic builder".into(), f.semantic_hash(&map).value(), false)?;
+        // over the 64-bit field conjunction, disjunction and negation of the hash-identified builder are
+        // claimed to be correct
+        ensure!(
+            sdd_tt(f) == t,
+            "C11/semantic-builder-wrong-function:and-or-negate",
+            "SemanticSddBuilder over GF({}) built {:?} by Shannon expansion with and/or/negate; requested {:?}",
+            P,
+            sdd_tt(f),
+            t
+        );
+        {
+            check("sdd built by the semantic builder".into(), f.semantic_hash(&map).value(), false, t)?;
             ensure!(
                 ssb.cached_semantic_hash(f).value() == want,
                 "C11/cached-hash-differs-from-recomputed",
@@ -195,23 +226,24 @@ fn hash_part<const P: u128>(case: &HashCase, cached_slot: usize, st: &mut Stats)
                 ssb.cached_semantic_hash(f).value(),
                 want
             );
-        } else {
-            st.bump("semantic_builder_wrong_function_skipped");
         }
     }
     if let Some(c) = case.src.cnf() {
         let cnf = c.to_rsdd();
         let d1 = std_b.compile_cnf_topdown(&cnf);
-        if bdd_tt(d1) == t {
-            check("top-down (standard store)".into(), d1.semantic_hash(&map).value(), false)?;
-            check("negated top-down (standard store)".into(), d1.neg().semantic_hash(&map).value(), true)?;
+        {
+            let dt = bdd_tt(d1);
+            check("top-down (standard store)".into(), d1.semantic_hash(&map).value(), false, dt)?;
+            check("negated top-down (standard store)".into(), d1.neg().semantic_hash(&map).value(), true, dt.not())?;
         }
         let d2 = sem_b.compile_cnf_topdown(&cnf);
-        if exact && bdd_tt(d2) == t {
-            check("top-down (semantic store)".into(), d2.semantic_hash(&map).value(), false)?;
+        if exact {
+            let dt = bdd_tt(d2);
+            check("top-down (semantic store)".into(), d2.semantic_hash(&map).value(), false, dt)?;
         }
     }
     st.add("representations", reps);
+    st.add("representations_denoting_another_function_than_requested(other properties' concern)", foreign);
     Ok(())
 }
 
@@ -317,8 +349,10 @@ fn sem_history<const P: u128>(case: &SemCase, exact: bool, st: &mut Stats) -> Ca
         .iter()
         .map(|c| c.iter().map(|(v, p)| ((*v as usize % k) as u8, *p)).collect())
         .collect();
-    let cc = CnfCase { clauses };
-    let r = b.compile_cnf(&cc.to_rsdd());
+    let cc_obj = CnfCase { clauses }.to_rsdd();
+    // the compiler's input is the Cnf object (C15 owns Cnf::new)
+    let cc = CnfCase::read_back(&cc_obj);
+    let r = b.compile_cnf(&cc_obj);
     if exact {
         ensure!(
             sdd_tt(r) == cc.tt(),
@@ -373,16 +407,9 @@ fn sem_history<const P: u128>(case: &SemCase, exact: bool, st: &mut Stats) -> Ca
                     ti
                 );
             } else if exact {
-                ensure!(
-                    !e,
-                    "C11/different-functions-judged-equal",
-                    "{}: pool entries {} ({:?}) and {} ({:?}) denote different functions but eq() is true",
-                    name,
-                    i,
-                    ti,
-                    j,
-                    tj
-                );
+                // the property only claims the other direction; a spurious equality would show as a wrong
+                // function of some later result. Recorded only.
+                st.flag("different_functions_judged_equal(recorded only)", e);
             }
         }
     }
